@@ -54,6 +54,7 @@ func newReport(prop string) *Report {
 }
 
 func (r *Report) add(rule, construct, verdict, pos, msg string, nontrivial bool) {
+	construct = noSpace(construct) // identities are matched token-wise in known-findings.txt
 	r.Obs = append(r.Obs, Ob{Rule: rule, Construct: construct, Verdict: verdict, Msg: msg, Pos: pos, Nontrivial: nontrivial})
 }
 func (r *Report) ok(rule, construct, pos, msg string)   { r.add(rule, construct, OK, pos, msg, true) }
